@@ -36,6 +36,8 @@ THEOREMS = [
     "Nix.C20.ids_kept",
     "Nix.C20.ids_fresh",
     "Nix.C20.ids_fresh_distinct",
+    "Nix.C20.id_named_links_kept",
+    "Nix.C20.id_named_links_counterexample",
     "Nix.C20.name_used",
     "Nix.C20.dup_refused",
     "Nix.C20.dup_refused_existing",
@@ -49,6 +51,7 @@ THEOREMS = [
     "Nix.C20.independent_createProperty",
     "Nix.C20.independent_create_entity",
     "Nix.C20.independent_append",
+    "Nix.C20.contAppend20_refines",
     "Nix.C20.sideInv_after_copy",
     "Nix.C20.idInv_after_copy",
     "Nix.C20.independent_history",
@@ -103,7 +106,9 @@ MANIFEST = {
                   "(HDF5-level dumps of both files compared).",
     "level_note": "Trusted: Lean kernel; standard axioms; the translator harness/extract/copyshape.py and the "
                   "correspondence harness; H5Ocopy semantics are modelled, not verified; dataset contents are checked by "
-                  "the implementation-side oracle only. Partial: deletion is global by entity_id (open finding shared "
+                  "the implementation-side oracle only. Partial: with regenerated ids the link lists of the copy keep the "
+                  "source's ids as entry names (open finding C20-fresh-ids-stale-link-names: id_named_links_kept + "
+                  "counterexample); deletion is global by entity_id (open finding shared "
                   "with C04; repair proposed in reports/C20-delete-by-object.*); history-level independence is proved "
                   "for histories of calls on either side whose entity arguments lie on that side (source side: destination "
                   "container outside the source sub-graph).",
@@ -112,6 +117,8 @@ MANIFEST = {
 }
 
 KNOWN_CLASS = "delete-hits-same-id-copy"
+KNOWN_STALE = "fresh-ids-stale-link-names"
+KNOWN_SITES = (KNOWN_CLASS, KNOWN_STALE)
 
 
 def extract(repo):
@@ -598,6 +605,26 @@ def reach_addrs(o):
     return seen
 
 
+def dup_ids(f):
+    """entity ids carried by more than one object of the file (left behind by id-keeping copies)"""
+    seen, count = set(), {}
+
+    def visit(o):
+        a = addr(o)
+        if a in seen:
+            return
+        seen.add(a)
+        i = o.attrs.get("entity_id")
+        if i is not None:
+            i = i.decode() if isinstance(i, bytes) else str(i)
+            count[i] = count.get(i, 0) + 1
+        if isinstance(o, h5py.Group):
+            for nm in o:
+                visit(o[nm])
+    visit(f._h5file["/"])
+    return {i for i, n in count.items() if n > 1}
+
+
 def all_addrs(f):
     return scan(f)[0]
 
@@ -785,6 +812,43 @@ def candidates(f):
     return out
 
 
+# ---- link lists: membership and lookup by id ------------------------------------------------------------
+
+LINK_LISTS = {"group": ("data_arrays", "data_frames", "tags", "multi_tags", "sources"), "tag": ("references", "sources"),
+              "multi_tag": ("references", "sources"), "data_array": ("sources",)}
+
+
+def link_membership(kind, ent):
+    """for every link list at / below the entity: per listed item `item in list`, `item.id in list` and whether
+    `list[item.id]` finds an item of that name - observable content the walk does not include"""
+    owners = []
+    if kind == "block":
+        owners += [("group", g) for g in ent.groups] + [("tag", t) for t in ent.tags]
+        owners += [("multi_tag", m) for m in ent.multi_tags] + [("data_array", a) for a in ent.data_arrays]
+    elif kind in LINK_LISTS:
+        owners.append((kind, ent))
+    out = []
+    for ok, o in owners:
+        for cname in LINK_LISTS[ok]:
+            try:
+                cont = getattr(o, cname)
+                items = list(cont)
+            except Exception:
+                continue
+            row = []
+            for it in items:
+                try:
+                    by_id = cont[it.id].name == it.name
+                except Exception:
+                    by_id = False
+                try:
+                    row.append([bool(it in cont), bool(it.id in cont), by_id])
+                except Exception as e:
+                    row.append(["!" + type(e).__name__])
+            out.append([ok, cname, row])
+    return out
+
+
 # ---- one copy trial ----------------------------------------------------------------------------------
 
 BLOCK_CREATE = {"data_array": "create_data_array", "data_frame": "create_data_frame", "tag": "create_tag",
@@ -900,20 +964,20 @@ def mutations(rng, kind, ent, blk, f, avoid=frozenset()):
             add("array label", setter(a, "label", val))
             add("array data", lambda a=a: a.write_direct(np.asarray(a[:]) * 0 + 7) if a.dtype.kind == "f" and a.size else None)
             add("array dimension", lambda a=a: a.append_set_dimension(["m1", "m2"]))
-            add("delete array", lambda a=a: ent.data_arrays.__delitem__(a.name), a.id)
+            add("delete array", lambda a=a: ent.data_arrays.__delitem__(a.name), [a.id])
         for t in list(ent.tags)[:2]:
             add("tag position", setter(t, "position", [5.0, 6.0]))
             add("tag feature", lambda t=t: t.create_feature(ent.data_arrays[0], "untagged"))
             add("tag unref", lambda t=t: t.references.__delitem__(0))
-            add("delete tag", lambda t=t: ent.tags.__delitem__(t.name), t.id)
+            add("delete tag", lambda t=t: ent.tags.__delitem__(t.name), [t.id])
         for g in list(ent.groups)[:1]:
             add("group append", lambda g=g: g.data_arrays.append(ent.data_arrays[-1]))
-            add("delete group", lambda g=g: ent.groups.__delitem__(g.name), g.id)
+            add("delete group", lambda g=g: ent.groups.__delitem__(g.name), [g.id])
         for s in list(ent.sources)[:1]:
             add("source definition", setter(s, "definition", val))
-            add("delete source", lambda s=s: ent.sources.__delitem__(s.name), s.id)
+            add("delete source", lambda s=s: ent.sources.__delitem__(s.name), [x.id for x in s.find_sources()] + [s.id])
         for m in list(ent.multi_tags)[:1]:
-            add("delete multi_tag", lambda m=m: ent.multi_tags.__delitem__(m.name), m.id)
+            add("delete multi_tag", lambda m=m: ent.multi_tags.__delitem__(m.name), [m.id])
         for d in list(ent.data_frames)[:1]:
             add("frame rows", lambda d=d: d.append_rows([(9, "z", 9.5)]))
         add("block metadata off", lambda: delattr(ent, "metadata"))
@@ -958,7 +1022,7 @@ def mutations(rng, kind, ent, blk, f, avoid=frozenset()):
         except Exception:
             feats = []
         for ft in feats:
-            add("delete feature", lambda ft=ft: ent.features.__delitem__(ft.id), ft.id)
+            add("delete feature", lambda ft=ft: ent.features.__delitem__(ft.id), [ft.id])
     elif kind == "section":
         add("repository", setter(ent, "repository", val))
         add("create_property", lambda: ent.create_property("newprop-" + val, [1, 2]))
@@ -968,11 +1032,11 @@ def mutations(rng, kind, ent, blk, f, avoid=frozenset()):
             add("property values", lambda p=p: setattr(p, "values", list(p.values) + list(p.values)[:1])
                 if len(p.values) else None)
             add("property definition", setter(p, "definition", val))
-            add("delete property", lambda p=p: ent.props.__delitem__(p.name), p.id)
+            add("delete property", lambda p=p: ent.props.__delitem__(p.name), [p.id])
         for s in list(ent.sections)[:1]:
             add("subsection definition", setter(s, "definition", val))
             add("subsection property", lambda s=s: s.create_property("deepprop-" + val, ["x"]))
-            add("delete subsection", lambda s=s: ent.sections.__delitem__(s.name), s.id)
+            add("delete subsection", lambda s=s: ent.sections.__delitem__(s.name), [x.id for x in s.find_sections()] + [s.id])
     else:
         add("definition", setter(ent, "definition", val))
         add("unit", setter(ent, "unit", "kHz"))
@@ -1126,6 +1190,7 @@ class Scenario:
         pre_addrs = all_addrs(dstf)
         pre_ids = all_ids(self.files[0]) | all_ids(self.files[1])
         src_state = side_state(kind, src)
+        src_member = link_membership(kind, src)
         src_name = src.name
         others_before = W.walk(self.files[1 - df]) if sf != df else None
         try:
@@ -1186,6 +1251,18 @@ class Scenario:
             if stale:
                 self.fail("the API shows %d id(s) inside the copy that existed before (keep_copy_id=False)" % len(stale),
                           stale[:3], "fresh ids only", "ids-fresh")
+        # ---- link lists of the copy answer membership / lookup by id as those of the source do -------------
+        if children:
+            cp_member = link_membership(kind, cp)
+            if cp_member != src_member:
+                bad = [(a, b) for a, b in zip(src_member, cp_member) if a != b][:2]
+                if not keep:
+                    self.fail("after a copy with fresh ids the entries of the copy's link lists are still named by "
+                              "the source's ids: `item in list` / `list[item.id]` fail for linked items",
+                              bad, "as in the source", KNOWN_STALE)
+                else:
+                    self.fail("membership / lookup by id in the link lists of the copy differ from the source",
+                              bad, "as in the source", "complete-api")
         # ---- independence ------------------------------------------------------------------------------
         self.independence(kind, sf, df, src, src_owner, cp, parent, keep)
 
@@ -1272,8 +1349,11 @@ class Scenario:
                 self.fail("a change of the %s is visible in the %s" % (mname, oname), d, "unchanged", "independence")
                 return
             if dels and rng.random() < 0.6:
-                desc, fn, did = rng.choice(dels)
-                other_ids = {n["id"][1] for n in before["h5"] if n["id"] is not None}
+                desc, fn, dids = rng.choice(dels)
+                # delete_all removes every link to every object of the file that carries one of these ids: when an
+                # earlier id-keeping copy left a second object with such an id anywhere in the file (on the other
+                # side, or above it), its disappearance is the open finding `delete-hits-same-id-copy`
+                shared = set(dids) & dup_ids(mfile)
                 try:
                     fn()
                 except Exception:
@@ -1284,7 +1364,7 @@ class Scenario:
                 after = side_state(kind, oent)
                 if after != before:
                     d = first_diff(before["h5"], after["h5"]) or W.diff(before["api"], after["api"], 3)
-                    if sf == df and keep and did in other_ids:
+                    if sf == df and shared:
                         self.fail("deleting an entity of the %s removed the same-id object of the %s "
                                   "(deletion is global by entity_id)" % (mname, oname), d, "unchanged", KNOWN_CLASS)
                     else:
@@ -1435,6 +1515,32 @@ def known_case(ctx):
     return None
 
 
+def known_case_stale(ctx):
+    """after keep_copy_id=False the link lists of the copy are named by the source's ids"""
+    path = ctx.tmpfile("c20-known2.nix")
+    f = nixio.File.open(path, nixio.FileMode.Overwrite)
+    try:
+        b = f.create_block("b", "t")
+        a = b.create_data_array("a", "t", data=[1.0, 2.0])
+        g = b.create_group("g", "t")
+        g.data_arrays.append(a)
+        c = f.create_block(name="c", copy_from=b, keep_copy_id=False)
+        ca, cg = c.data_arrays["a"], c.groups["g"]
+        if not (ca in cg.data_arrays):
+            return Failure("after a copy with fresh ids the entries of the copy's link lists are still named by the "
+                           "source's ids: `item in list` / `list[item.id]` fail for linked items",
+                           {"history": [["create_data_array", "a"], ["create_group", "g"], ["g.data_arrays.append", "a"],
+                                        ["copy", "b", "c", {"keep_id": False}], ["c.data_arrays['a'] in c.groups['g'].data_arrays"]]},
+                           False, True, KNOWN_STALE)
+    finally:
+        f.close()
+        try:
+            os.remove(path)
+        except OSError:
+            pass
+    return None
+
+
 def oracle(ctx, broken, hints):
     n = ctx.budget(6, 40) * (4 if broken else 1)
     trials = ctx.budget(14, 24)
@@ -1448,7 +1554,7 @@ def oracle(ctx, broken, hints):
         try:
             for j in range(trials):
                 sc.trial(force_kind=kinds[j % len(kinds)] if j < len(kinds) else None)
-                if len(sc.fails) > 6:
+                if len([x for x in sc.fails if x.site not in KNOWN_SITES]) > 6:
                     break
         except Exception as e:  # the scenario itself must not abort the check silently
             sc.fail("oracle scenario aborted with %s: %s" % (type(e).__name__, str(e)[:200]), type(e).__name__,
@@ -1459,14 +1565,15 @@ def oracle(ctx, broken, hints):
         evals += sc.evals
         for kk, v in sc.counts.items():
             counts[kk] = counts.get(kk, 0) + v
-        if len([f for f in failures if f.site != KNOWN_CLASS]) > 12:
+        if len([f for f in failures if f.site not in KNOWN_SITES]) > 12:
             break
     fx = fixed_cases(ctx)
     failures += fx
     evals += 12
-    kf = known_case(ctx)
-    if kf is not None:
-        failures.append(kf)
+    for kc in (known_case, known_case_stale):
+        kf = kc(ctx)
+        if kf is not None:
+            failures.append(kf)
     best = {}
     for f in failures:
         key = (f.what, f.site)
@@ -1476,12 +1583,14 @@ def oracle(ctx, broken, hints):
 
 
 def matches_known(entry, failure):
-    return entry.get("class") == KNOWN_CLASS and failure.site == KNOWN_CLASS
+    return entry.get("class") in KNOWN_SITES and failure.site == entry.get("class")
 
 
 def reproduces(ctx, entry):
     if entry.get("class") == KNOWN_CLASS:
         return known_case(ctx) is not None
+    if entry.get("class") == KNOWN_STALE:
+        return known_case_stale(ctx) is not None
     return True
 
 
